@@ -25,7 +25,8 @@ import sys
 from .. import tlc
 from ..core import MachineryError, pmap
 
-FEATS = ['assign_parindent', 'assign_tolerance', 'use_parindent', 'use_tolerance', 'any', 'math', 'pmath', 'list', 'printindex']
+FEATS = ['assign_parindent', 'assign_tolerance', 'assign_LTleft', 'use_parindent', 'use_tolerance', 'use_LTleft', 'any', 'math', 'pmath', 'list',
+         'listinput', 'mathinput', 'section', 'printindex']
 ENDINGS = ['end', 'mathopen', 'listopen', 'boom', 'ifraise']
 
 CFG = '''CONSTANTS
@@ -47,7 +48,7 @@ INVARIANT AssignmentsRun
 
 def source(doc, extra=''):
     cls, feats, ending = doc['cls'], doc['feats'] or [], doc['ending']
-    out = ['\\documentclass{%s}\n\\usepackage{ifthen}\\usepackage{makeidx}\\makeindex\n\\newwrite\\vw\n%s\\begin{document}\n' % (cls, extra)]
+    out = ['\\documentclass{%s}\n\\usepackage{ifthen}\\usepackage{makeidx}\\usepackage{longtable}\\makeindex\n\\newwrite\\vw\n%s\\begin{document}\n' % (cls, extra)]
     if cls == 'book':
         out.append('\\chapter{Ch}\n')
     out.append('start w\\index{key}\n\n')
@@ -56,10 +57,20 @@ def source(doc, extra=''):
             out.append('\\parindent=3pt t%d\n\n' % i)
         elif f == 'assign_tolerance':
             out.append('\\tolerance=777 t%d\n\n' % i)
+        elif f == 'assign_LTleft':
+            out.append('\\LTleft=7pt t%d\n\n' % i)
+        elif f == 'use_LTleft':
+            out.append('t%d\\hskip\\LTleft t\n\n' % i)
+        elif f == 'listinput':
+            out.append('\\begin{enumerate}\\item Lq%dq \\input{vinc} t\\end{enumerate}\n\n' % i)
+        elif f == 'mathinput':
+            out.append('t $Mq%dq \\input{vinc} $ t\n\n' % i)
+        elif f == 'section':
+            out.append('\\section{Sq%dq}\nt\n\n' % i)
         elif f == 'use_parindent':
             out.append('t%d\\hskip\\parindent t\n\n' % i)
         elif f == 'use_tolerance':
-            out.append('t%d\\vskip\\tolerance sp t\n\n' % i)
+            out.append('t%d\\hskip\\tolerance sp t\n\n' % i)
         elif f == 'any':
             out.append('t%d \\openout\\vw=vfile t\n\n' % i)
         elif f == 'math':
@@ -100,7 +111,8 @@ def wide_snapshot():
     lv = set([I.printindex.level, I.theindex.level, B.bibliography.level])
     return {'plevel': plasTeX.ParameterCommand._enablelevel, 'enabled': plasTeX.ParameterCommand.enabled,
             'math': len(MathShift.inEnv), 'list': List.depth, 'dmath': bool(BeginMath.disableMath or EndMath.disableMath),
-            'regs': {'parindent': reg(P.parindent, INIT['parindent']), 'tolerance': reg(P.tolerance, INIT['tolerance'])},
+            'regs': {'parindent': reg(P.parindent, INIT['parindent']), 'tolerance': reg(P.tolerance, INIT['tolerance']),
+                     'LTleft': reg(importlib.import_module('plasTeX.Packages.longtable').LTleft, INIT['LTleft_glue'])},
             'idx': 'chapter' if lv == set([plasTeX.Command.CHAPTER_LEVEL]) else ('section' if lv == set([plasTeX.Command.SECTION_LEVEL]) else 'mixed')}
 
 
@@ -115,6 +127,10 @@ def measure_init():
     P = importlib.import_module('plasTeX.Base.TeX.Parameters')
     INIT['parindent'] = str(P.parindent.value.source)
     INIT['tolerance'] = str(P.tolerance.value.source)
+    L = importlib.import_module('plasTeX.Packages.longtable')
+    from plasTeX import dimen
+    INIT['LTleft'] = str(dimen(L.LTleft.value).source)
+    INIT['LTleft_glue'] = str(L.LTleft.value.source)
 
 
 _SIMPLE = (int, float, str, bool, type(None), bytes)
@@ -192,7 +208,7 @@ def observe(doc, d):
         name = getattr(n, 'nodeName', None)
         if n.nodeType == n.TEXT_NODE:
             return
-        if name in ('parindent', 'tolerance', 'hskip', 'vskip', 'printindex'):
+        if name in ('parindent', 'tolerance', 'LTleft', 'hskip', 'vskip', 'kern', 'printindex', 'section'):
             nodes.setdefault(name, []).append(n)
         # text children may be single characters where normalize() did not run: look at them joined
         joined = ''.join(str(c) if c.nodeType == c.TEXT_NODE else ' ' for c in n.childNodes)
@@ -212,16 +228,16 @@ def observe(doc, d):
         lst = nodes.get(name, [])
         return lst[i] if i < len(lst) else None
     for i, f in enumerate(doc['feats'] or []):
-        if f in ('assign_parindent', 'assign_tolerance'):
+        if f in ('assign_parindent', 'assign_tolerance', 'assign_LTleft'):
             n = nth(f.split('_')[1])
             obs.append('assigned' if n is not None and n.attributes and n.attributes.get('value') is not None else 'notassigned')
-        elif f in ('use_parindent', 'use_tolerance'):
-            n = nth('hskip' if f == 'use_parindent' else 'vskip')
+        elif f in ('use_parindent', 'use_tolerance', 'use_LTleft'):
+            n = nth('hskip')
             v = str(n.attributes['size'].source if hasattr(n.attributes['size'], 'source') else n.attributes['size']) if n is not None and n.attributes.get('size') is not None else '?'
             reg = f.split('_')[1]
             from plasTeX import dimen
-            v1 = {'parindent': '3.0pt', 'tolerance': str(dimen('777sp').source)}[reg]
-            vi = {'parindent': INIT['parindent'], 'tolerance': str(dimen(INIT['tolerance'] + 'sp').source)}[reg]
+            v1 = {'parindent': '3.0pt', 'tolerance': str(dimen('777sp').source), 'LTleft': '7.0pt'}[reg]
+            vi = {'parindent': INIT['parindent'], 'tolerance': str(dimen(INIT['tolerance'] + 'sp').source), 'LTleft': INIT['LTleft']}[reg]
             obs.append('init' if v == vi else ('v1' if v == v1 else 'other:' + v))
         elif f == 'any':
             pass
@@ -231,7 +247,14 @@ def observe(doc, d):
         elif f == 'pmath':
             a = nodes.get(('P', i))
             obs.append('lost' if a is None else ('math' if 'math' in a else 'text'))
-        elif f == 'list':
+        elif f == 'mathinput':
+            a = nodes.get(('M', i))
+            obs.append('lost' if a is None else ('math' if 'math' in a else 'text'))
+        elif f == 'section':
+            n = nth('section')
+            r = str(n.ref.textContent) if n is not None and n.ref is not None else '?'
+            obs.append('chaptered' if re.match(r'^\d+\.\d+$', r) else ('flat' if re.match(r'^\d+$', r) else 'other:' + r))
+        elif f in ('list', 'listinput'):
             a = nodes.get(('L', i))
             obs.append('lost' if a is None else ('list' if 'enumerate' in a else 'text'))
         elif f == 'printindex':
@@ -271,6 +294,23 @@ def render_doc(d, variant):
         shutil.rmtree(tmp, ignore_errors=True)
 
 
+_INC = []
+
+
+def incdir():
+    """a scratch directory holding the file the \\input features read"""
+    if not _INC:
+        import atexit
+        import shutil
+        import tempfile
+        d = tempfile.mkdtemp(prefix='visoinc')
+        with open(os.path.join(d, 'vinc.tex'), 'w') as f:
+            f.write('included words\n')
+        _INC.append(d)
+        atexit.register(shutil.rmtree, d, True)
+    return _INC[0]
+
+
 def run_doc(doc, render=None):
     import plasTeX
     from plasTeX.TeX import TeX
@@ -288,10 +328,14 @@ def run_doc(doc, render=None):
     t = TeX(d)
     t.input(source(doc))
     exc = None
+    old = os.getcwd()
+    os.chdir(incdir())
     try:
         t.parse()
     except Exception as ex:
         exc = type(ex).__name__
+    finally:
+        os.chdir(old)
     aborted = exc is not None
     obs = 'skip'
     xml = None
@@ -449,7 +493,7 @@ def run(chk):
         hist = b['hist']
         if 'machinery' in r:
             raise MachineryError('C17: history %s: %s' % (describe(hist), r['machinery']))
-        touching = any(d['ending'] != 'end' or any(f in ('assign_parindent', 'assign_tolerance', 'any') for f in (d['feats'] or [])) or d['cls'] == 'article' for d in hist[:-1])
+        touching = any(d['ending'] != 'end' or any(f in ('assign_parindent', 'assign_tolerance', 'assign_LTleft', 'any', 'listinput', 'mathinput') for f in (d['feats'] or [])) or d['cls'] == 'article' for d in hist[:-1])
         chk.case(hist, touching, {'history': describe(hist), 'last': source(hist[-1])[:300]} if len(hist) >= 2 and touching and len(chk.samples) < 4 else None)
         chk.traces += 1
         last = hist[-1]
